@@ -141,6 +141,9 @@ def run(tier, seed, replay=None):
                 json_cases.append((ty, m))
                 json_cases.append(("data" if ty == "level" else ty, m))
                 dist["json_mutants"] += 2
+            for m in tg.json_struct_mutants(s, rng, dict(quick=25, thorough=200)[tier]):
+                json_cases.append((ty, m))
+                dist["json_struct_mutants"] = dist.get("json_struct_mutants", 0) + 1
         sweeps = SWEEPS_QUICK if tier == "quick" else SWEEPS_ALL
 
     # distinct
